@@ -153,6 +153,17 @@ class SimSource:
         return self.value(i)
 
 
+class HintedSource(SimSource):
+    """A stream that also answers operator.length_hint - with the number of
+    items it happens to have buffered, far fewer than it will deliver (PEP
+    424: a hint may be wrong in either direction)."""
+
+    hint = 1
+
+    def __length_hint__(self):
+        return self.hint
+
+
 class ItertoolsProxy:
     """Stands in for the `itertools` name inside yaql modules: count / cycle
     / repeat return budgeted SimSource-backed iterators, everything else is
